@@ -152,7 +152,7 @@ func (g *vstore) Set(ctx context.Context, key any, value any, options ...store.O
 		g.mu.Unlock()
 	}
 	val := ""
-	if b, ok := value.([]byte); ok && len(b) < 4096 {
+	if b, ok := value.([]byte); ok && len(b) < 1<<20 {
 		val = string(b)
 	}
 	g.record(storeEvent{Op: "set", Class: class, Ref: ref, Value: val, Hit: err == nil, TTL: ttl, Gid: goid()})
